@@ -36,12 +36,12 @@ FILES = {
     "pkg/sbom/nodelist.go": ["C08", "C09", "C10", "C15", "C16", "C13", "C12", "C11"],
     "pkg/sbom/node.go": ["C13", "C09", "C12", "C14", "C16", "C10", "C01", "C02"],
     "pkg/sbom/diff.go": ["C14"],
-    "pkg/sbom/edge.go": ["C13", "C12", "C08", "C01"],
+    "pkg/sbom/edge.go": ["C01", "C03", "C13", "C12", "C08"],
     "pkg/sbom/person.go": ["C13", "C12", "C14"],
     "pkg/sbom/externalreference.go": ["C13", "C12", "C14", "C01", "C02"],
-    "pkg/sbom/identifier.go": ["C16", "C01", "C02"],
-    "pkg/sbom/hashalgorithm.go": ["C01", "C02", "C03"],
-    "pkg/sbom/functions.go": ["C05", "C01"],
+    "pkg/sbom/identifier.go": ["C16", "C01", "C02", "C03"],
+    "pkg/sbom/hashalgorithm.go": ["C01", "C02", "C03", "C05"],
+    "pkg/sbom/functions.go": ["C01", "C02", "C03", "C05"],
     "pkg/sbom/document.go": ["C16", "C02", "C01"],
     "pkg/formats/sniffer.go": ["C06", "C04", "C17"],
     "pkg/formats/formats.go": ["C06"],
@@ -88,6 +88,16 @@ def candidates(path, lines):
         if SIMPLE_STMT.match(ln) and not s.endswith("{") and not s.endswith(",") and not s.endswith("(") and ":=" not in s and not s.startswith("return") \
                 and not s.startswith("defer") and not s.startswith("logrus") and not s.startswith("fmt.") and s.count("(") == s.count(")"):
             out.append((i, "del", None))
+    # swp: swap the labels of two neighbouring single-statement case arms (value tables: enum <-> name mappings)
+    case_re = re.compile(r"^\s*case [^:]+:\s*(//.*)?$")
+    i = 0
+    while i + 2 < len(lines):
+        if case_re.match(lines[i]) and case_re.match(lines[i + 2]) and not case_re.match(lines[i + 1]) and lines[i + 1].strip() \
+                and lines[i].strip() != lines[i + 2].strip() and lines[i + 1].strip() != (lines[i + 3].strip() if i + 3 < len(lines) else ""):
+            out.append((i, "swp", (i + 2, lines[i + 2], lines[i])))
+            i += 4
+            continue
+        i += 1
     return out
 
 
@@ -108,6 +118,10 @@ def evaluate(rel, idx, op, newline, checks, results, out_path):
         res["original"] = lines[idx].strip()
         if op == "del":
             lines[idx] = ""
+        elif op == "swp":
+            j, li, lj = newline
+            res["mutated"] = "%s <-> %s" % (lines[idx].strip(), lines[j].strip())
+            lines[idx], lines[j] = li, lj
         else:
             lines[idx] = newline
             res["mutated"] = newline.strip()
@@ -166,10 +180,11 @@ def main():
         results = json.load(open(out_path))
         done = {(r["file"], r["line"], r["op"]) for r in results if not r["status"].startswith("error")}
     jobs = []
+    ops = args[args.index("--ops") + 1].split(",") if "--ops" in args else None
     for rel in files:
         lines = open(os.path.join(REPO, rel)).read().split("\n")
         for idx, op, newline in candidates(rel, lines):
-            if (rel, idx + 1, op) not in done:
+            if (rel, idx + 1, op) not in done and (ops is None or op in ops):
                 jobs.append((rel, idx, op, newline, FILES[rel]))
     if limit:
         step = max(1, len(jobs) // limit)
